@@ -158,15 +158,17 @@ func LoadKnown(path string) ([]KnownFinding, error) {
 			head, text, _ := strings.Cut(strings.TrimPrefix(ln, "known:"), "::")
 			k.Text = strings.TrimSpace(text)
 			head = strings.TrimSpace(head)
-			// construct may contain spaces? constructs never do; split on fields.
+			// the construct is everything after "construct=" (it contains spaces); property and rule are single fields before it
+			if i := strings.Index(head, "construct="); i >= 0 {
+				k.Construct = strings.TrimSpace(head[i+len("construct="):])
+				head = head[:i]
+			}
 			for _, f := range strings.Fields(head) {
 				switch {
 				case strings.HasPrefix(f, "property="):
 					k.Property = strings.TrimPrefix(f, "property=")
 				case strings.HasPrefix(f, "rule="):
 					k.Rule = strings.TrimPrefix(f, "rule=")
-				case strings.HasPrefix(f, "construct="):
-					k.Construct = strings.TrimPrefix(f, "construct=")
 				}
 			}
 			if k.Property == "" || k.Rule == "" || k.Construct == "" {
